@@ -76,7 +76,7 @@ Lemma sample_bytes_pos k v : 0 < sample_bytes k v.
 Proof.
   unfold sample_bytes. pose proof (ndigits_pos v).
   pose proof (Z.mod_pos_bound v 4 ltac:(lia)). pose proof (Z.mod_pos_bound v 3 ltac:(lia)).
-  destruct (k =? 0); [lia|]. destruct (k =? 1); [lia|]. destruct (k =? 2); [lia|]. destruct (k =? 3); lia.
+  destruct (k =? 0); [lia|]. destruct (k =? 1); [lia|]. destruct (k =? 2); [lia|]. destruct (v =? 0); [lia|]. destruct (k =? 3); lia.
 Qed.
 
 Lemma bytes_of_nonneg k l : 0 <= bytes_of k l.
